@@ -12,9 +12,28 @@ CHECKS = {
         "engines": NATIVE,
         "golden": "C01A.tsv",
         "level": "exploration",
-        "rule": "TODO",
-        "floor": {"quick": 1000, "thorough": 1000},
-        "technique": "TODO", "level_text": "TODO", "level_note": "TODO",
+        "rule": "Stratum A: every atom (operator, conversion, update/compound assignment, built-in method of "
+                "String/Array/Object/Number/Math/Map/Set/JSON/RegExp/Date) x every combination of its operand palettes (cross-type "
+                "hostile values: NaN, -0, 2^31/2^32/2^53 boundaries, negative/fractional/out-of-range indices, explicit undefined, "
+                "empty and non-ASCII strings, objects with valueOf/toString hooks, wrappers), capped per atom by a seed-independent "
+                "sample, plus hand-written statement-level programs (completions, scoping, hoisting, classes, generators, "
+                "destructuring, exceptions); each cell is one program evaluated by tsrun and compared with the reference engine's "
+                "outcome for the same text. Stratum B: seeded composed programs (see C01B). Every cell is distinct by construction; "
+                "a cell is non-trivial when the reference engine produced an outcome to compare with",
+        "exhaustive": "the atom x palette matrix (all binary operators over the full 48-value palette: 2304 cells each) is the same at every seed",
+        "floor": {"quick": 50000, "thorough": 50000},
+        "unit_timeout": {"default": 900},
+        "technique": "runtime monitoring: differential execution against reference-engine goldens over an enumerated atom matrix and "
+                     "seeded composed programs, crash-isolated workers",
+        "level_text": "About 85k tiny programs covering the operator x operand-type cross product and the built-in library's argument "
+                      "edge cases, plus statement-level and composed programs, are executed on tsrun and compared (completion value via "
+                      "an in-program canonical printer, error class) with what node produced for the identical text. Deviating cells of "
+                      "the pinned tree are ledgered by exact cell id and observed output, so any change in any cell is reported.",
+        "level_note": "node v20 is the reference engine (goldens committed under ref/golden, regenerated with --regold); ** / Math.pow / "
+                      "hypot and the transcendental Math functions are compared with a tolerance because ECMAScript leaves them "
+                      "implementation-approximated; async ordering, Date local time, locale functions are outside the compared core",
+        "assumptions": ["node v20 implements ECMAScript correctly on the compared core",
+                        "the in-program printer (harness/src/prelude.js) uses only features that behave identically on both engines for the printed values"],
     },
     "C13": {
         "engines": {"quick": ["native", "asan", "miri"], "thorough": ["native", "asan", "miri"]},
